@@ -8,8 +8,11 @@ import ObiVerif.Lemmas.TaxExample
 nothing to `levels`/`total`, so that the loop runs as on the items of positive weight (the others are
 deleted on the way or stay, harmlessly); with no positive weight the loop stops at once on its
 initial answer, the root.  `TaxonomicDistribution` is characterised when several keys resolve to
-the same node (the last one in iteration order wins), and the answer is shown not to depend on the
-iteration order of the Go map as long as the keys of one taxon agree on "count > 0".
+the same node: since the repair 5d9c1cf the counts are ADDED (`taxDist_sum`), so the answer is the
+deepest common ancestor of the taxa whose summed count is positive and does not depend on the
+iteration order of the Go map (`weightedLca_sum`, `weightedLca_perm_any`), with no side condition.
+The unrepaired assignment semantics (`taxDistAssign`: the last key in iteration order wins) is kept
+in section G together with the order dependence it caused.
 -/
 namespace ObiVerif.Tax
 
@@ -413,7 +416,321 @@ theorem wlcaNodes_zero {t : Taxo} {root : Nat} {depth : Nat → Nat} (wf : WF t 
         have := hsub d (List.mem_cons_of_mem _ hd)
         exact h d this.1 this.2
 
-/-! ## C. `TaxonomicDistribution` with several keys for one node -/
+/-! ## C. `TaxonomicDistribution` with several keys for one node: the counts are added -/
+
+/-- the summed count of the keys of the `merged_taxid` map that designate node `x` (directly or as a
+merged taxid) -/
+def taxCount (t : Taxo) (x : Nat) : List (Nat × Nat) → Nat
+  | [] => 0
+  | kw :: r => (if resolve t kw.1 = some x then kw.2 else 0) + taxCount t x r
+
+theorem taxCount_pos_iff {t : Taxo} (x : Nat) : ∀ kws : List (Nat × Nat),
+    0 < taxCount t x kws ↔ ∃ kw ∈ kws, resolve t kw.1 = some x ∧ 0 < kw.2 := by
+  intro kws
+  induction kws with
+  | nil => simp [taxCount]
+  | cons kw r ih =>
+    simp only [taxCount, List.mem_cons, exists_eq_or_imp]
+    by_cases e : resolve t kw.1 = some x
+    · simp only [e, if_true, true_and]
+      rw [← ih]; omega
+    · simp only [e, if_false, false_and, false_or, Nat.zero_add]
+      exact ih
+
+theorem taxCount_append {t : Taxo} (x : Nat) (l1 l2 : List (Nat × Nat)) :
+    taxCount t x (l1 ++ l2) = taxCount t x l1 + taxCount t x l2 := by
+  induction l1 with
+  | nil => simp [taxCount]
+  | cons a r ih => simp only [List.cons_append, taxCount, ih]; omega
+
+/-- the summed count does not depend on the order of the keys -/
+theorem taxCount_perm {t : Taxo} (x : Nat) {kws kws' : List (Nat × Nat)} (hp : kws.Perm kws') :
+    taxCount t x kws = taxCount t x kws' := by
+  induction hp with
+  | nil => rfl
+  | cons a _ ih => simp only [taxCount, ih]
+  | swap a b l => simp only [taxCount]; omega
+  | trans _ _ ih1 ih2 => rw [ih1, ih2]
+
+theorem lvGet_addW (k w k' : Nat) : ∀ lv : List (Nat × Nat),
+    lvGet (addW lv k w) k' = lvGet lv k' + (if k' = k then w else 0) := by
+  intro lv
+  induction lv with
+  | nil =>
+    simp only [addW, lvGet]
+    by_cases e : k = k'
+    · subst e; simp
+    · have : ¬ k' = k := fun h => e h.symm
+      simp [e, this]
+  | cons a r ih =>
+    obtain ⟨ka, va⟩ := a
+    by_cases e : ka = k
+    · subst e
+      simp only [addW, if_true, lvGet]
+      by_cases e' : ka = k'
+      · subst e'; simp
+      · have : ¬ k' = ka := fun h => e' h.symm
+        simp [e', this]
+    · simp only [addW, e, if_false, lvGet, ih]
+      by_cases e' : ka = k'
+      · subst e'; simp [e]
+      · simp [e']
+
+theorem addW_nodup (x w : Nat) : ∀ (acc : List (Nat × Nat)),
+    (acc.map (·.1)).Nodup → ((addW acc x w).map (·.1)).Nodup := by
+  intro acc
+  induction acc with
+  | nil => intro _; simp [addW]
+  | cons a r ih =>
+    obtain ⟨xa, va⟩ := a
+    intro h
+    by_cases e : xa = x
+    · simpa [addW, e] using h
+    · simp only [List.map_cons, List.nodup_cons] at h
+      simp only [addW, e, if_false, List.map_cons, List.nodup_cons]
+      refine ⟨?_, ih h.2⟩
+      intro hm
+      rcases ((addW_mem x w r).1 xa).1 hm with h1 | h1
+      · exact h.1 h1
+      · exact e h1
+
+/-- with one entry per key, the entry of a key is what the lookup returns -/
+theorem lvGet_of_mem_nodup : ∀ (lv : List (Nat × Nat)), (lv.map (·.1)).Nodup → ∀ x w, (x, w) ∈ lv →
+    lvGet lv x = w := by
+  intro lv
+  induction lv with
+  | nil => intro _ x w h; simp at h
+  | cons a r ih =>
+    obtain ⟨ka, va⟩ := a
+    intro hnd x w hm
+    simp only [List.map_cons, List.nodup_cons] at hnd
+    rcases List.mem_cons.1 hm with e | e
+    · obtain ⟨e1, e2⟩ := Prod.mk.inj e
+      subst e1; subst e2; simp [lvGet]
+    · have hne : ¬ ka = x := by
+        intro e'; subst e'
+        exact hnd.1 (List.mem_map.2 ⟨(ka, w), e, rfl⟩)
+      simp only [lvGet, hne, if_false]
+      exact ih hnd.2 x w e
+
+/-- `TaxonomicDistribution` run from the partial map `acc`: one entry per node, and the count stored for a
+node is its count in `acc` plus the summed count of the keys designating it -/
+theorem taxDist_sum_acc {t : Taxo} : ∀ (kws acc dist : List (Nat × Nat)), taxDist t kws acc = .ok dist →
+    ((acc.map (·.1)).Nodup → (dist.map (·.1)).Nodup) ∧
+    (∀ x, lvGet dist x = lvGet acc x + taxCount t x kws) := by
+  intro kws
+  induction kws with
+  | nil =>
+    intro acc dist h
+    simp [taxDist] at h; subst h
+    exact ⟨id, fun x => by simp [taxCount]⟩
+  | cons kw r ih =>
+    intro acc dist h
+    obtain ⟨k, w⟩ := kw
+    unfold taxDist at h
+    split at h
+    · cases h
+    · rename_i x0 hx0
+      obtain ⟨h1, h2⟩ := ih _ _ h
+      refine ⟨fun hn => h1 (addW_nodup x0 w acc hn), ?_⟩
+      intro x
+      rw [h2 x, lvGet_addW]
+      simp only [taxCount, hx0, Option.some.injEq]
+      by_cases e : x = x0
+      · subst e; simp; omega
+      · have e' : ¬ x0 = x := fun h => e h.symm
+        simp [e, e']
+
+/-- `TaxonomicDistribution` on keys that all resolve, several keys possibly resolving to the same node
+(a merged taxid next to its current taxid): one entry per node reached, holding the SUM of the counts of
+the keys that designate the node -/
+theorem taxDist_sum {t : Taxo} (kws : List (Nat × Nat)) (hr : ∀ kw ∈ kws, (resolve t kw.1).isSome) :
+    ∃ dist, taxDist t kws [] = .ok dist ∧ (dist.map (·.1)).Nodup ∧
+      (∀ y, y ∈ dist.map (·.1) ↔ ∃ kw ∈ kws, resolve t kw.1 = some y) ∧
+      (∀ x w, (x, w) ∈ dist → w = taxCount t x kws) := by
+  obtain ⟨dist, h1, h2, _⟩ := taxDist_ok kws [] hr
+  obtain ⟨h3, h4⟩ := taxDist_sum_acc kws [] dist h1
+  have hnd := h3 (by simp)
+  refine ⟨dist, h1, hnd, ?_, ?_⟩
+  · intro y; rw [h2 y]; simp
+  · intro x w hm
+    have := h4 x
+    rw [lvGet_of_mem_nodup dist hnd x w hm] at this
+    simpa [lvGet] using this
+
+/-! ## D. zero counts, aliases and duplicate keys at the level of the sequence -/
+
+/-- `Taxonomy.LCA(sequence, 1.0)` on ANY `merged_taxid` map of known taxids: the answer is the deepest
+common ancestor of the taxa whose summed count (over the keys designating them) is positive; all
+counts zero on a non-empty map: the root.  The values of the positive counts are irrelevant. -/
+theorem weightedLca_sum {t : Taxo} {root : Nat} {depth : Nat → Nat} {fuel : Nat}
+    (wf : WF t root depth) (hf : FuelOK t fuel) (ha : AliasOK t)
+    (kws : List (Nat × Nat)) (hr : ∀ kw ∈ kws, (resolve t kw.1).isSome) :
+    (kws ≠ [] → (∀ kw ∈ kws, kw.2 = 0) → weightedLca t fuel kws = .ok (some root)) ∧
+    ((∃ kw ∈ kws, 0 < kw.2) → ∃ z, weightedLca t fuel kws = .ok (some z) ∧
+      ∀ a, Anc t a z ↔ ∀ y, 0 < taxCount t y kws → Anc t a y) := by
+  obtain ⟨dist, h1, _, h2, h3⟩ := taxDist_sum kws hr
+  have hnode : ∀ d ∈ dist, ∃ n, t.node d.1 = some n := by
+    intro d hd
+    obtain ⟨kw, _, hk⟩ := (h2 d.1).1 (List.mem_map.2 ⟨d, hd, rfl⟩)
+    exact resolve_isNode ha hk
+  have hwl : weightedLca t fuel kws = wlcaNodes t fuel dist := by simp [weightedLca, h1]
+  -- a node of positive summed count is in the distribution with a positive weight, and conversely
+  have hposd : ∀ y, 0 < taxCount t y kws → ∃ d ∈ dist, d.1 = y ∧ 0 < d.2 := by
+    intro y hy
+    obtain ⟨kw, hkw, hk, _⟩ := (taxCount_pos_iff y kws).1 hy
+    have : y ∈ dist.map (·.1) := (h2 y).2 ⟨kw, hkw, hk⟩
+    obtain ⟨d, hd, rfl⟩ := List.mem_map.1 this
+    refine ⟨d, hd, rfl, ?_⟩
+    rw [h3 d.1 d.2 hd]; exact hy
+  constructor
+  · intro hne hz
+    have hdne : dist ≠ [] := by
+      cases kws with
+      | nil => exact absurd rfl hne
+      | cons kw r =>
+        obtain ⟨y, hy⟩ := Option.isSome_iff_exists.1 (hr kw (by simp))
+        have := (h2 y).2 ⟨kw, by simp, hy⟩
+        intro e; rw [e] at this; simp at this
+    have hfil : dist.filter (fun d => 0 < d.2) = [] := by
+      apply List.filter_eq_nil_iff.2
+      intro d hd
+      simp only [decide_eq_true_eq]
+      intro hp
+      rw [h3 d.1 d.2 hd] at hp
+      obtain ⟨kw, hkw, _, hw⟩ := (taxCount_pos_iff d.1 kws).1 hp
+      have := hz kw hkw
+      omega
+    rw [hwl]
+    exact (wlcaNodes_zero wf hf dist hdne hnode).1 hfil
+  · rintro ⟨kw0, hkw0, hp0⟩
+    obtain ⟨y0, hy0⟩ := Option.isSome_iff_exists.1 (hr kw0 hkw0)
+    obtain ⟨d0, hd0, _, hw0⟩ := hposd y0 ((taxCount_pos_iff y0 kws).2 ⟨kw0, hkw0, hy0, hp0⟩)
+    have hdne : dist ≠ [] := by intro e; rw [e] at hd0; simp at hd0
+    cases hfil : dist.filter (fun d => 0 < d.2) with
+    | nil =>
+      have := List.filter_eq_nil_iff.1 hfil d0 hd0
+      simp only [decide_eq_true_eq] at this
+      exact absurd hw0 this
+    | cons xw rest =>
+      obtain ⟨x, w⟩ := xw
+      obtain ⟨z, _, hz, hc⟩ := (wlcaNodes_zero wf hf dist hdne hnode).2 x w rest hfil
+      refine ⟨z, by rw [hwl, hz], ?_⟩
+      intro a
+      rw [hc a]
+      constructor
+      · intro h y hy
+        obtain ⟨d, hd, e, hdw⟩ := hposd y hy
+        exact e ▸ h d hd hdw
+      · intro h d hd hw
+        apply h
+        rw [← h3 d.1 d.2 hd]; exact hw
+
+/-- the same read on the keys: the deepest common ancestor of the taxa designated by a key of positive count -/
+theorem weightedLca_sum_keys {t : Taxo} {root : Nat} {depth : Nat → Nat} {fuel : Nat}
+    (wf : WF t root depth) (hf : FuelOK t fuel) (ha : AliasOK t)
+    (kws : List (Nat × Nat)) (hr : ∀ kw ∈ kws, (resolve t kw.1).isSome) (hpos : ∃ kw ∈ kws, 0 < kw.2) :
+    ∃ z, weightedLca t fuel kws = .ok (some z) ∧
+      ∀ a, Anc t a z ↔ ∀ kw ∈ kws, 0 < kw.2 → ∃ y, resolve t kw.1 = some y ∧ Anc t a y := by
+  obtain ⟨z, hz, cz⟩ := (weightedLca_sum wf hf ha kws hr).2 hpos
+  refine ⟨z, hz, fun a => ?_⟩
+  rw [cz a]
+  constructor
+  · intro h kw hkw hw
+    obtain ⟨y, hy⟩ := Option.isSome_iff_exists.1 (hr kw hkw)
+    exact ⟨y, hy, h y ((taxCount_pos_iff y kws).2 ⟨kw, hkw, hy, hw⟩)⟩
+  · intro h y hy
+    obtain ⟨kw, hkw, hk, hw⟩ := (taxCount_pos_iff y kws).1 hy
+    obtain ⟨y', hy', hay⟩ := h kw hkw hw
+    rw [hk] at hy'; cases hy'; exact hay
+
+/-! ## E. the iteration order of the Go map is irrelevant -/
+
+/-- whatever the order in which `range` lists the `merged_taxid` map, the answer is the same -/
+theorem weightedLca_perm_any {t : Taxo} {root : Nat} {depth : Nat → Nat} {fuel : Nat}
+    (wf : WF t root depth) (hf : FuelOK t fuel) (ha : AliasOK t)
+    (kws kws' : List (Nat × Nat)) (hp : kws.Perm kws')
+    (hr : ∀ kw ∈ kws, (resolve t kw.1).isSome) :
+    weightedLca t fuel kws' = weightedLca t fuel kws := by
+  have hr' : ∀ kw ∈ kws', (resolve t kw.1).isSome := fun kw h => hr kw (hp.mem_iff.2 h)
+  by_cases hpos : ∃ kw ∈ kws, 0 < kw.2
+  · have hpos' : ∃ kw ∈ kws', 0 < kw.2 := by
+      obtain ⟨kw, h, hw⟩ := hpos
+      exact ⟨kw, hp.mem_iff.1 h, hw⟩
+    obtain ⟨z, hz, cz⟩ := (weightedLca_sum wf hf ha kws hr).2 hpos
+    obtain ⟨z', hz', cz'⟩ := (weightedLca_sum wf hf ha kws' hr').2 hpos'
+    have h1 : Anc t z z' := (cz' z).2 (fun y hy => (cz z).1 (Anc.refl z) y (by rw [taxCount_perm y hp]; exact hy))
+    have h2 : Anc t z' z := (cz z').2 (fun y hy => (cz' z').1 (Anc.refl z') y (by rw [← taxCount_perm y hp]; exact hy))
+    rw [hz, hz', Anc.antisymm wf h1 h2]
+  · have hz : ∀ kw ∈ kws, kw.2 = 0 := by
+      intro kw h
+      apply Nat.eq_zero_of_not_pos
+      intro hw; exact hpos ⟨kw, h, hw⟩
+    by_cases hne : kws = []
+    · subst hne
+      rw [hp.nil_eq]
+    · have hne' : kws' ≠ [] := by
+        intro e; subst e; exact hne hp.eq_nil
+      rw [(weightedLca_sum wf hf ha kws hr).1 hne hz,
+        (weightedLca_sum wf hf ha kws' hr').1 hne' (fun kw h => hz kw (hp.mem_iff.2 h))]
+
+/-! ## F. non-vacuity on the example taxonomy
+
+`exT`: 1 root, 2→1, 3→2, 4→2, 5→1; 9 and 10 are aliases of 3. -/
+
+/-- zero counts (here on 3 through its two aliases and itself, and on 5) are ignored: the LCA is that
+of the only taxon of positive count -/
+example : ∃ z, weightedLca exT 6 [(3, 0), (9, 0), (4, 2), (10, 0), (5, 0)] = .ok (some z) ∧
+    ∀ a, Anc exT a z ↔ ∀ y, 0 < taxCount exT y [(3, 0), (9, 0), (4, 2), (10, 0), (5, 0)] → Anc exT a y :=
+  (weightedLca_sum exT_wf exT_fuel exT_aliasOK _ (by decide)).2 ⟨(4, 2), by decide⟩
+
+example : weightedLca exT 6 [(3, 0), (9, 0), (4, 2), (10, 0), (5, 0)] = .ok (some 4) := rfl
+
+/-- three keys of different counts for taxon 3, one for 4, a zero count on 5: the counts are added -/
+example : taxDist exT [(3, 1), (9, 5), (4, 2), (10, 3), (5, 0)] [] = .ok [(3, 9), (4, 2), (5, 0)] := rfl
+example : taxCount exT 3 [(3, 1), (9, 5), (4, 2), (10, 3), (5, 0)] = 9 := by decide
+example : weightedLca exT 6 [(3, 1), (9, 5), (4, 2), (10, 3), (5, 0)] = .ok (some 2) := rfl
+
+/-- all counts zero: the root -/
+example : weightedLca exT 6 [(3, 0), (9, 0), (5, 0)] = .ok (some 1) :=
+  (weightedLca_sum exT_wf exT_fuel exT_aliasOK _ (by decide)).1 (by simp) (by decide)
+
+/-- the order of the map is irrelevant, also on the map on which the unrepaired code was order dependent -/
+example : weightedLca exT 6 [(9, 2), (3, 0), (5, 1)] = weightedLca exT 6 [(3, 0), (9, 2), (5, 1)] :=
+  weightedLca_perm_any exT_wf exT_fuel exT_aliasOK _ _ (List.Perm.swap _ _ _) (by decide)
+
+example : weightedLca exT 6 [(3, 0), (9, 2), (5, 1)] = .ok (some 1) ∧
+    weightedLca exT 6 [(9, 2), (3, 0), (5, 1)] = .ok (some 1) := ⟨rfl, rfl⟩
+
+/-! ## G. history: the UNREPAIRED `TaxonomicDistribution` (`taxons[t] = v`, before 5d9c1cf)
+
+`taxDistAssign` keeps the count of the key met LAST in iteration order; with a zero and a positive
+count under two keys of one taxon the answer depended on the map order. -/
+
+theorem taxDistAssign_ok {t : Taxo} : ∀ (kws acc : List (Nat × Nat)), (∀ kw ∈ kws, (resolve t kw.1).isSome) →
+    ∃ dist, taxDistAssign t kws acc = .ok dist ∧
+      (∀ y, y ∈ dist.map (·.1) ↔ (y ∈ acc.map (·.1) ∨ ∃ kw ∈ kws, resolve t kw.1 = some y)) := by
+  intro kws
+  induction kws with
+  | nil => intro acc _; exact ⟨acc, rfl, by simp⟩
+  | cons kw r ih =>
+    intro acc h
+    obtain ⟨k, w⟩ := kw
+    obtain ⟨x, hx⟩ := Option.isSome_iff_exists.1 (h (k, w) (by simp))
+    obtain ⟨dist, h1, h2⟩ := ih (setW acc x w) (fun kw hkw => h kw (List.mem_cons_of_mem _ hkw))
+    refine ⟨dist, by simp [taxDistAssign, hx, h1], ?_⟩
+    intro y
+    rw [h2 y, (setW_mem x w acc).1 y]
+    simp only [List.mem_cons, exists_eq_or_imp, hx, Option.some.injEq]
+    constructor
+    · rintro ((h | h) | h)
+      · exact Or.inl h
+      · exact Or.inr (Or.inl h.symm)
+      · exact Or.inr (Or.inr h)
+    · rintro (h | h | h)
+      · exact Or.inl (Or.inl h)
+      · exact Or.inl (Or.inr h.symm)
+      · exact Or.inr h
 
 theorem setW_nodup (x w : Nat) : ∀ (acc : List (Nat × Nat)),
     (acc.map (·.1)).Nodup → ((setW acc x w).map (·.1)).Nodup := by
@@ -454,19 +771,19 @@ theorem setW_val (x w : Nat) : ∀ (acc : List (Nat × Nat)) (y v : Nat),
         · left; exact List.mem_cons_of_mem _ h1
         · right; exact h1
 
-theorem taxDist_inv {t : Taxo} : ∀ (kws acc dist : List (Nat × Nat)), taxDist t kws acc = .ok dist →
+theorem taxDistAssign_inv {t : Taxo} : ∀ (kws acc dist : List (Nat × Nat)), taxDistAssign t kws acc = .ok dist →
     ((acc.map (·.1)).Nodup → (dist.map (·.1)).Nodup) ∧
     (∀ x w, (x, w) ∈ dist → (x, w) ∈ acc ∨ ∃ kw ∈ kws, resolve t kw.1 = some x ∧ kw.2 = w) := by
   intro kws
   induction kws with
   | nil =>
     intro acc dist h
-    simp [taxDist] at h; subst h
+    simp [taxDistAssign] at h; subst h
     exact ⟨id, fun x w h => Or.inl h⟩
   | cons kw r ih =>
     intro acc dist h
     obtain ⟨k, w⟩ := kw
-    unfold taxDist at h
+    unfold taxDistAssign at h
     split at h
     · cases h
     · rename_i x hx
@@ -479,15 +796,15 @@ theorem taxDist_inv {t : Taxo} : ∀ (kws acc dist : List (Nat × Nat)), taxDist
         · exact Or.inr ⟨(k, w), by simp, by rw [e1]; exact hx, e2.symm⟩
       · exact Or.inr ⟨kw, List.mem_cons_of_mem _ hkw, h4⟩
 
-/-- `TaxonomicDistribution` on keys that all resolve, several keys possibly resolving to the same
+/-- the unrepaired `TaxonomicDistribution` on keys that all resolve, several keys possibly resolving to the same
 node (aliases): one entry per node reached, and the weight stored for a node is the weight of one of
-the keys resolving to it (the last one in iteration order: `taxDist_last`) -/
-theorem taxDist_spec {t : Taxo} (kws : List (Nat × Nat)) (hr : ∀ kw ∈ kws, (resolve t kw.1).isSome) :
-    ∃ dist, taxDist t kws [] = .ok dist ∧ (dist.map (·.1)).Nodup ∧
+the keys resolving to it (the last one in iteration order: `taxDistAssign_last`) -/
+theorem taxDistAssign_spec {t : Taxo} (kws : List (Nat × Nat)) (hr : ∀ kw ∈ kws, (resolve t kw.1).isSome) :
+    ∃ dist, taxDistAssign t kws [] = .ok dist ∧ (dist.map (·.1)).Nodup ∧
       (∀ y, y ∈ dist.map (·.1) ↔ ∃ kw ∈ kws, resolve t kw.1 = some y) ∧
       (∀ x w, (x, w) ∈ dist → ∃ kw ∈ kws, resolve t kw.1 = some x ∧ kw.2 = w) := by
-  obtain ⟨dist, h1, h2, _⟩ := taxDist_ok kws [] hr
-  obtain ⟨h3, h4⟩ := taxDist_inv kws [] dist h1
+  obtain ⟨dist, h1, h2⟩ := taxDistAssign_ok kws [] hr
+  obtain ⟨h3, h4⟩ := taxDistAssign_inv kws [] dist h1
   refine ⟨dist, h1, h3 (by simp), ?_, ?_⟩
   · intro y; rw [h2 y]; simp
   · intro x w hm
@@ -525,8 +842,8 @@ theorem setW_val' (x w : Nat) : ∀ (acc : List (Nat × Nat)), (acc.map (·.1)).
         · right; exact h1
 
 /-- the weight stored for a node is the weight of the LAST key (in iteration order) resolving to it -/
-theorem taxDist_last_acc {t : Taxo} : ∀ (kws acc dist : List (Nat × Nat)), (acc.map (·.1)).Nodup →
-    taxDist t kws acc = .ok dist → ∀ x w, (x, w) ∈ dist →
+theorem taxDistAssign_last_acc {t : Taxo} : ∀ (kws acc dist : List (Nat × Nat)), (acc.map (·.1)).Nodup →
+    taxDistAssign t kws acc = .ok dist → ∀ x w, (x, w) ∈ dist →
     ((x, w) ∈ acc ∧ ∀ kw ∈ kws, resolve t kw.1 ≠ some x) ∨
     ∃ l1 kw l2, kws = l1 ++ kw :: l2 ∧ resolve t kw.1 = some x ∧ kw.2 = w ∧
       ∀ kw' ∈ l2, resolve t kw'.1 ≠ some x := by
@@ -534,12 +851,12 @@ theorem taxDist_last_acc {t : Taxo} : ∀ (kws acc dist : List (Nat × Nat)), (a
   induction kws with
   | nil =>
     intro acc dist _ h x w hm
-    simp [taxDist] at h; subst h
+    simp [taxDistAssign] at h; subst h
     exact Or.inl ⟨hm, by simp⟩
   | cons kw r ih =>
     intro acc dist hnd h x w hm
     obtain ⟨k, w0⟩ := kw
-    unfold taxDist at h
+    unfold taxDistAssign at h
     split at h
     · cases h
     · rename_i x0 hx0
@@ -556,172 +873,34 @@ theorem taxDist_last_acc {t : Taxo} : ∀ (kws acc dist : List (Nat × Nat)), (a
       · right
         exact ⟨(k, w0) :: l1, kw, l2, by rw [e]; rfl, h3, h4, h5⟩
 
-theorem taxDist_last {t : Taxo} (kws dist : List (Nat × Nat)) (h : taxDist t kws [] = .ok dist) :
+theorem taxDistAssign_last {t : Taxo} (kws dist : List (Nat × Nat)) (h : taxDistAssign t kws [] = .ok dist) :
     ∀ x w, (x, w) ∈ dist → ∃ l1 kw l2, kws = l1 ++ kw :: l2 ∧ resolve t kw.1 = some x ∧ kw.2 = w ∧
       ∀ kw' ∈ l2, resolve t kw'.1 ≠ some x := by
   intro x w hm
-  rcases taxDist_last_acc kws [] dist (by simp) h x w hm with ⟨h1, _⟩ | h1
+  rcases taxDistAssign_last_acc kws [] dist (by simp) h x w hm with ⟨h1, _⟩ | h1
   · simp at h1
   · exact h1
 
-/-! ## D. zero counts, aliases and duplicate keys at the level of the sequence -/
+/-- the order dependence of the UNREPAIRED code: taxon 3 is given count 0 under its own taxid and count 2
+under its merged taxid 9; the key met last decides whether taxon 3 takes part (`[(3, 2), (5, 1)]`:
+LCA(3, 5) = 1) or not (`[(3, 0), (5, 1)]`: 5) -/
+example : weightedLcaAssign exT 6 [(3, 0), (9, 2), (5, 1)] = .ok (some 1) ∧
+    weightedLcaAssign exT 6 [(9, 2), (3, 0), (5, 1)] = .ok (some 5) := ⟨rfl, rfl⟩
 
-/-- `Taxonomy.LCA(sequence, 1.0)` on a `merged_taxid` map of known taxids: the taxa of count zero are
-ignored (all counts zero: the root); several keys for one taxon are harmless as long as they agree
-on "count > 0"; the counts are otherwise irrelevant -/
-theorem weightedLca_zero_dup {t : Taxo} {root : Nat} {depth : Nat → Nat} {fuel : Nat}
-    (wf : WF t root depth) (hf : FuelOK t fuel) (ha : AliasOK t)
-    (kws : List (Nat × Nat)) (hr : ∀ kw ∈ kws, (resolve t kw.1).isSome)
-    (hcons : ∀ kw ∈ kws, ∀ kw' ∈ kws, resolve t kw.1 = resolve t kw'.1 → (0 < kw.2 ↔ 0 < kw'.2)) :
-    (kws ≠ [] → (∀ kw ∈ kws, kw.2 = 0) → weightedLca t fuel kws = .ok (some root)) ∧
-    ((∃ kw ∈ kws, 0 < kw.2) → ∃ z, weightedLca t fuel kws = .ok (some z) ∧
-      ∀ a, Anc t a z ↔ ∀ kw ∈ kws, 0 < kw.2 → ∃ y, resolve t kw.1 = some y ∧ Anc t a y) := by
-  obtain ⟨dist, h1, _, h2, h3⟩ := taxDist_spec kws hr
-  have hnode : ∀ d ∈ dist, ∃ n, t.node d.1 = some n := by
-    intro d hd
-    obtain ⟨kw, _, hk, _⟩ := h3 d.1 d.2 hd
-    exact resolve_isNode ha hk
-  have hwl : weightedLca t fuel kws = wlcaNodes t fuel dist := by simp [weightedLca, h1]
-  -- a key of positive count has its node in the distribution with a positive weight
-  have hposd : ∀ kw ∈ kws, 0 < kw.2 → ∀ y, resolve t kw.1 = some y → ∃ d ∈ dist, d.1 = y ∧ 0 < d.2 := by
-    intro kw hkw hw y hy
-    have : y ∈ dist.map (·.1) := (h2 y).2 ⟨kw, hkw, hy⟩
-    obtain ⟨d, hd, rfl⟩ := List.mem_map.1 this
-    obtain ⟨kw', hkw', hk', e'⟩ := h3 d.1 d.2 hd
-    refine ⟨d, hd, rfl, ?_⟩
-    rw [← e']
-    exact (hcons kw hkw kw' hkw' (by rw [hy, hk'])).1 hw
-  constructor
-  · intro hne hz
-    have hdne : dist ≠ [] := by
-      cases kws with
-      | nil => exact absurd rfl hne
-      | cons kw r =>
-        obtain ⟨y, hy⟩ := Option.isSome_iff_exists.1 (hr kw (by simp))
-        have := (h2 y).2 ⟨kw, by simp, hy⟩
-        intro e; rw [e] at this; simp at this
-    have hfil : dist.filter (fun d => 0 < d.2) = [] := by
-      apply List.filter_eq_nil_iff.2
-      intro d hd
-      obtain ⟨kw, hkw, _, e⟩ := h3 d.1 d.2 hd
-      have := hz kw hkw
-      simp only [decide_eq_true_eq]
-      omega
-    rw [hwl]
-    exact (wlcaNodes_zero wf hf dist hdne hnode).1 hfil
-  · rintro ⟨kw0, hkw0, hp0⟩
-    obtain ⟨y0, hy0⟩ := Option.isSome_iff_exists.1 (hr kw0 hkw0)
-    obtain ⟨d0, hd0, _, hw0⟩ := hposd kw0 hkw0 hp0 y0 hy0
-    have hdne : dist ≠ [] := by intro e; rw [e] at hd0; simp at hd0
-    cases hfil : dist.filter (fun d => 0 < d.2) with
-    | nil =>
-      have := List.filter_eq_nil_iff.1 hfil d0 hd0
-      simp only [decide_eq_true_eq] at this
-      exact absurd hw0 this
-    | cons xw rest =>
-      obtain ⟨x, w⟩ := xw
-      obtain ⟨z, _, hz, hc⟩ := (wlcaNodes_zero wf hf dist hdne hnode).2 x w rest hfil
-      refine ⟨z, by rw [hwl, hz], ?_⟩
-      intro a
-      rw [hc a]
-      constructor
-      · intro h kw hkw hw
-        obtain ⟨y, hy⟩ := Option.isSome_iff_exists.1 (hr kw hkw)
-        obtain ⟨d, hd, e, hdw⟩ := hposd kw hkw hw y hy
-        exact ⟨y, hy, e ▸ h d hd hdw⟩
-      · intro h d hd hw
-        obtain ⟨kw, hkw, hk, e⟩ := h3 d.1 d.2 hd
-        obtain ⟨y, hy, hay⟩ := h kw hkw (by omega)
-        rw [hk] at hy; cases hy; exact hay
+example : taxDistAssign exT [(3, 0), (9, 2), (5, 1)] [] = .ok [(3, 2), (5, 1)] ∧
+    taxDistAssign exT [(9, 2), (3, 0), (5, 1)] [] = .ok [(3, 0), (5, 1)] := ⟨rfl, rfl⟩
 
-/-! ## E. the iteration order of the Go map is irrelevant -/
-
-/-- positive counts present: the answer does not depend on the order in which `range` lists the map -/
-theorem weightedLca_perm {t : Taxo} {root : Nat} {depth : Nat → Nat} {fuel : Nat}
-    (wf : WF t root depth) (hf : FuelOK t fuel) (ha : AliasOK t)
-    (kws kws' : List (Nat × Nat)) (hp : kws.Perm kws')
-    (hr : ∀ kw ∈ kws, (resolve t kw.1).isSome)
-    (hcons : ∀ kw ∈ kws, ∀ kw' ∈ kws, resolve t kw.1 = resolve t kw'.1 → (0 < kw.2 ↔ 0 < kw'.2))
-    (hpos : ∃ kw ∈ kws, 0 < kw.2) :
-    weightedLca t fuel kws' = weightedLca t fuel kws := by
-  have hr' : ∀ kw ∈ kws', (resolve t kw.1).isSome := fun kw h => hr kw (hp.mem_iff.2 h)
-  have hcons' : ∀ kw ∈ kws', ∀ kw' ∈ kws', resolve t kw.1 = resolve t kw'.1 → (0 < kw.2 ↔ 0 < kw'.2) :=
-    fun kw h kw' h' => hcons kw (hp.mem_iff.2 h) kw' (hp.mem_iff.2 h')
-  have hpos' : ∃ kw ∈ kws', 0 < kw.2 := by
-    obtain ⟨kw, h, hw⟩ := hpos
-    exact ⟨kw, hp.mem_iff.1 h, hw⟩
-  obtain ⟨z, hz, cz⟩ := (weightedLca_zero_dup wf hf ha kws hr hcons).2 hpos
-  obtain ⟨z', hz', cz'⟩ := (weightedLca_zero_dup wf hf ha kws' hr' hcons').2 hpos'
-  have h1 : Anc t z z' := (cz' z).2 (fun kw h hw => (cz z).1 (Anc.refl z) kw (hp.mem_iff.2 h) hw)
-  have h2 : Anc t z' z := (cz z').2 (fun kw h hw => (cz' z').1 (Anc.refl z') kw (hp.mem_iff.1 h) hw)
-  rw [hz, hz', Anc.antisymm wf h1 h2]
-
-/-- the same without asking for a positive count (all counts zero: the root both ways) -/
-theorem weightedLca_perm_any {t : Taxo} {root : Nat} {depth : Nat → Nat} {fuel : Nat}
-    (wf : WF t root depth) (hf : FuelOK t fuel) (ha : AliasOK t)
-    (kws kws' : List (Nat × Nat)) (hp : kws.Perm kws')
-    (hr : ∀ kw ∈ kws, (resolve t kw.1).isSome)
-    (hcons : ∀ kw ∈ kws, ∀ kw' ∈ kws, resolve t kw.1 = resolve t kw'.1 → (0 < kw.2 ↔ 0 < kw'.2)) :
-    weightedLca t fuel kws' = weightedLca t fuel kws := by
-  by_cases hpos : ∃ kw ∈ kws, 0 < kw.2
-  · exact weightedLca_perm wf hf ha kws kws' hp hr hcons hpos
-  · have hz : ∀ kw ∈ kws, kw.2 = 0 := by
-      intro kw h
-      apply Nat.eq_zero_of_not_pos
-      intro hw; exact hpos ⟨kw, h, hw⟩
-    by_cases hne : kws = []
-    · subst hne
-      rw [hp.nil_eq]
-    · have hne' : kws' ≠ [] := by
-        intro e; subst e; exact hne hp.eq_nil
-      have hr' : ∀ kw ∈ kws', (resolve t kw.1).isSome := fun kw h => hr kw (hp.mem_iff.2 h)
-      have hcons' : ∀ kw ∈ kws', ∀ kw' ∈ kws', resolve t kw.1 = resolve t kw'.1 → (0 < kw.2 ↔ 0 < kw'.2) :=
-        fun kw h kw' h' => hcons kw (hp.mem_iff.2 h) kw' (hp.mem_iff.2 h')
-      rw [(weightedLca_zero_dup wf hf ha kws hr hcons).1 hne hz,
-        (weightedLca_zero_dup wf hf ha kws' hr' hcons').1 hne' (fun kw h => hz kw (hp.mem_iff.2 h))]
-
-/-! ## F. non-vacuity on the example taxonomy, and the order dependence without `hcons`
-
-`exT`: 1 root, 2→1, 3→2, 4→2, 5→1; 9 and 10 are aliases of 3. -/
-
-/-- zero counts (here on 3 through its two aliases and itself, and on 5) are ignored: the LCA is that
-of the only taxon of positive count -/
-example : ∃ z, weightedLca exT 6 [(3, 0), (9, 0), (4, 2), (10, 0), (5, 0)] = .ok (some z) ∧
-    ∀ a, Anc exT a z ↔ ∀ kw ∈ [(3, 0), (9, 0), (4, 2), (10, 0), (5, 0)], 0 < kw.2 →
-      ∃ y, resolve exT kw.1 = some y ∧ Anc exT a y :=
-  (weightedLca_zero_dup exT_wf exT_fuel exT_aliasOK _ (by decide) (by decide)).2 ⟨(4, 2), by decide⟩
-
-example : weightedLca exT 6 [(3, 0), (9, 0), (4, 2), (10, 0), (5, 0)] = .ok (some 4) := rfl
-
-/-- three keys of different positive counts for taxon 3, one for 4, a zero count on 5 -/
-example : ∃ z, weightedLca exT 6 [(3, 1), (9, 5), (4, 2), (10, 3), (5, 0)] = .ok (some z) ∧
-    ∀ a, Anc exT a z ↔ ∀ kw ∈ [(3, 1), (9, 5), (4, 2), (10, 3), (5, 0)], 0 < kw.2 →
-      ∃ y, resolve exT kw.1 = some y ∧ Anc exT a y :=
-  (weightedLca_zero_dup exT_wf exT_fuel exT_aliasOK _ (by decide) (by decide)).2 ⟨(3, 1), by decide⟩
-
-example : weightedLca exT 6 [(3, 1), (9, 5), (4, 2), (10, 3), (5, 0)] = .ok (some 2) := rfl
-
-/-- all counts zero: the root -/
-example : weightedLca exT 6 [(3, 0), (9, 0), (5, 0)] = .ok (some 1) :=
-  (weightedLca_zero_dup exT_wf exT_fuel exT_aliasOK _ (by decide) (by decide)).1 (by simp) (by decide)
-
-/-- the order of the map is irrelevant under `hcons` -/
-example : weightedLca exT 6 [(5, 0), (10, 3), (4, 2), (9, 5), (3, 1)] =
-    weightedLca exT 6 [(3, 1), (9, 5), (4, 2), (10, 3), (5, 0)] :=
-  weightedLca_perm exT_wf exT_fuel exT_aliasOK _ _ (List.reverse_perm _).symm (by decide) (by decide)
-    ⟨(3, 1), by decide⟩
-
-/-- WITHOUT `hcons` the answer of the code depends on the iteration order of the Go map: taxon 3 is
-given count 0 under its own taxid and count 2 under its alias 9; the key met last decides whether
-taxon 3 takes part (`[(3, 2), (5, 1)]`: LCA(3, 5) = 1) or not (`[(3, 0), (5, 1)]`: 5) -/
-example : weightedLca exT 6 [(3, 0), (9, 2), (5, 1)] = .ok (some 1) ∧
-    weightedLca exT 6 [(9, 2), (3, 0), (5, 1)] = .ok (some 5) := ⟨rfl, rfl⟩
-
-example : taxDist exT [(3, 0), (9, 2), (5, 1)] [] = .ok [(3, 2), (5, 1)] ∧
-    taxDist exT [(9, 2), (3, 0), (5, 1)] [] = .ok [(3, 0), (5, 1)] := ⟨rfl, rfl⟩
-
-/-- and `hcons` does fail on that map -/
-example : ¬ ∀ kw ∈ [(3, 0), (9, 2), (5, 1)], ∀ kw' ∈ [(3, 0), (9, 2), (5, 1)],
-    resolve exT kw.1 = resolve exT kw'.1 → (0 < kw.2 ↔ 0 < kw'.2) := by decide
+/-- where no taxon has two keys the two semantics coincide -/
+theorem setW_eq_addW_of_not_mem (x w : Nat) : ∀ acc : List (Nat × Nat), x ∉ acc.map (·.1) →
+    setW acc x w = addW acc x w := by
+  intro acc
+  induction acc with
+  | nil => intro _; rfl
+  | cons a r ih =>
+    obtain ⟨xa, va⟩ := a
+    intro h
+    simp only [List.map_cons, List.mem_cons, not_or] at h
+    have e : ¬ xa = x := fun e => h.1 e.symm
+    simp only [setW, addW, e, if_false, ih h.2]
 
 end ObiVerif.Tax
